@@ -7,6 +7,7 @@ import (
 	"github.com/elnosh/gonuts/cashu"
 	"github.com/elnosh/gonuts/cashu/nuts/nut04"
 	"github.com/elnosh/gonuts/cashu/nuts/nut20"
+	"github.com/elnosh/gonuts/mint/storage"
 	v "github.com/elnosh/gonuts/verifrt"
 )
 
@@ -113,3 +114,28 @@ func vhMintTokensStep(mode int, maxOut int) {
 
 func VHarnessMintTokensC03() { vhMintTokensStep(vhC03, 2) }
 func VHarnessMintTokensC06() { vhMintTokensStep(vhC06, 2) }
+
+// C03/C02: the amount check of a mint request holds for totals beyond 2^64 too: four outputs over the denominations
+// {1, 2^61, 2^62} (4 * 2^62 wraps to 0) on a PAID quote - issuance never exceeds the quoted amount in unbounded integers.
+func VHarnessMintTokensWrap() {
+	vhDenoms = []uint64{1, 1 << 61, 1 << 62}
+	env := vhNewEnv(1)
+	m := env.m
+	q := storage.MintQuote{Id: "mintq1", Amount: v.U64("quote.amount"), PaymentRequest: "lnbc-mintq1", PaymentHash: "hash-mintq1", State: nut04.Paid, Expiry: 1}
+	v.Assume(q.Amount < vhMaxMsatAmount)
+	v.Assume(env.db.SaveMintQuote(q) == nil)
+	out := make(cashu.BlindedMessages, 4)
+	sum := v.ZU(0)
+	for i := range out {
+		out[i] = env.output(fmt.Sprintf("out%d", i), 0, v.Int(fmt.Sprintf("out%d.denom", i), 0, 2))
+		sum = v.ZAdd(sum, v.ZU(out[i].Amount))
+	}
+	sigs, err := m.MintTokens(nut04.PostMintBolt11Request{Quote: q.Id, Outputs: out})
+	if err == nil {
+		v.Reach("wrap-accepted")
+		v.Assert(v.ZLe(sum, v.ZU(q.Amount)), "C03/C02 issued amount <= quoted amount also when the outputs' total exceeds 2^64 (unbounded integers)")
+		v.Assert(len(sigs) == 4, "C03 one signature per output")
+	} else {
+		v.Reach("wrap-rejected")
+	}
+}
